@@ -121,4 +121,36 @@ fn main() {
         }
         println!("  executor after the two assignments: x = {:?}   (the analysis reports x:32 = 0x5 at the nop)", state.get_scalar("x"));
     }
+
+    // (v) a scalar that is assigned on one path only and then read: absent entries are the identity of join,
+    //     so the constant of the assigning path survives the join and is used to fold the reader
+    //     0: nop -> 1: x = 5 -> 3 ;  0 -> 2: nop -> 3 ;  3: y = x + 1 ; nop
+    println!("(v) x is assigned on one of two paths, then y = x + 1   (x is read before it is assigned on the path through block 2)");
+    let mut cfg = ControlFlowGraph::new();
+    let b0 = { let b = cfg.new_block().unwrap(); b.nop(); b.index() };
+    let b1 = { let b = cfg.new_block().unwrap(); b.assign(scalar("x", 32), expr_const(5, 32)); b.index() };
+    let b2 = { let b = cfg.new_block().unwrap(); b.nop(); b.index() };
+    let b3 = {
+        let b = cfg.new_block().unwrap();
+        b.assign(scalar("y", 32), Expression::add(expr_scalar("x", 32), expr_const(1, 32)).unwrap());
+        b.nop();
+        b.index()
+    };
+    cfg.unconditional_edge(b0, b1).unwrap();
+    cfg.unconditional_edge(b0, b2).unwrap();
+    cfg.unconditional_edge(b1, b3).unwrap();
+    cfg.unconditional_edge(b2, b3).unwrap();
+    cfg.set_entry(b0).unwrap();
+    cfg.set_exit(b3).unwrap();
+    let f = Function::new(0, cfg);
+    run("  function: 0:[nop] -> 1:[x=5] -> 3:[y=x+1, nop] ; 0 -> 2:[nop] -> 3", &f);
+    {
+        use falcon::executor::{Memory, State};
+        // the execution 0 -> 2 -> 3 with the caller's x = 100
+        let mut state = State::new(Memory::new(falcon::architecture::Endian::Little));
+        state.set_scalar("x", Constant::new(100, 32));
+        let block = f.block(3).unwrap();
+        state = state.execute(block.instructions()[0].operation()).unwrap().state().clone();
+        println!("  executor, path 0 -> 2 -> 3 with incoming x = 100: y = {:?} after `y = x + 1`   (y HAS been assigned by the function; the analysis reports y = 0x6 at 0x3:01)", state.get_scalar("y"));
+    }
 }
